@@ -90,10 +90,36 @@ func wazeroBase(r *Rng, prop string) *baseGen {
 	panic("wazero generator: no usable module")
 }
 
+// genWazeroFork: a fork scenario over a compiled package (undo paths with the real VM and ABI). The test modules
+// depend on the block number more than on its id, so sibling blocks often produce the same deltas; the reversal,
+// the size accounting and the client's view are exercised all the same.
+func genWazeroFork(seed uint64, prop string, r *Rng, b *baseGen) *Scenario {
+	lo := max(b.gi.outInit, b.gi.lowest)
+	base := lo + uint64(r.Range(1, int(3*b.seg)))
+	forkNoSkippedHeights = true
+	fork, top := GenFork(r, base, r.Range(2, 5), r.Range(4, 12))
+	forkNoSkippedHeights = false
+	s := &Scenario{Prop: prop, Seed: seed, Family: "real_wazero_forks", Pkg: b.pkg, Head: base, Fork: fork}
+	genPolicy(r, s)
+	q := ReqSpec{Output: b.pkg.Output, SegSize: b.seg, Workers: uint64(r.Range(1, 2)), Prod: r.Chance(1, 2)}
+	start := lo + uint64(r.Intn(int(base-lo)+1))
+	if r.Chance(1, 3) {
+		start = base
+	}
+	q.Start = int64(start)
+	q.Stop = top + 2
+	q.Final = base
+	s.History = []HistItem{{Req: q}}
+	return s
+}
+
 // GenWazero produces a scenario of the given property over a compiled package.
 func GenWazero(seed uint64, prop string) *Scenario {
 	r := NewRng(seed, "gen", "wazero", prop)
 	b := wazeroBase(r, prop)
+	if prop == "C03" || prop == "C11" {
+		return genWazeroFork(seed, prop, r, b)
+	}
 	s := &Scenario{Prop: prop, Seed: seed, Family: "real_wazero", Pkg: b.pkg, Head: b.head, ConfDepth: uint64(r.Range(1, 3))}
 	genPolicy(r, s)
 	nh := r.Range(0, 1)
